@@ -428,6 +428,74 @@ def leg_bad_bytes(ns, res, spec):
     res.sample({'leg': 'bad-bytes', 'file': good_text, 'offsets': len(good) + 1, 'sequences': [b.hex() for b in bads], 'chunk_sizes': [1, 2, 3, 7, 1024]})
 
 
+def leg_stdin_bad_bytes(ns, res, spec):
+    """The table arrives on standard input: in-process through a replaced sys.stdin whose own decoder is lenient, and through the command line under
+    locales / PYTHONIOENCODING settings that make the interpreter's sys.stdin lenient (surrogateescape under the C locale, replace, strict)."""
+    import subprocess
+    good = 'k1,é1\nk2,"x y2"\n€3,z3\nk4,v4\n'.encode('utf-8')
+    bads = [b'\xff', b'\x80', b'\xc3', b'\xe2\x82', b'\xed\xa0\x80']
+    d = tempfile.mkdtemp(prefix='rv-c15-')
+    try:
+        outp = os.path.join(d, 'out.csv')
+        cases = []
+        for p in range(0, len(good) + 1):
+            for bad in bads:
+                data = good[:p] + bad + good[p:]
+                try:
+                    data.decode('utf-8')
+                except UnicodeDecodeError:
+                    cases.append((p, bad, data))
+        for p, bad, data in (cases if spec.get('i', 0) == 0 else []):
+            for errors in ('surrogateescape', 'replace', 'strict', 'ignore'):
+                for qtext in ('select *', 'select NR'):
+                    old = sys.stdin
+                    sys.stdin = io.TextIOWrapper(io.BytesIO(data), encoding='utf-8', errors=errors)
+                    err = None
+                    try:
+                        ns.rbql.query_csv(qtext, None, ',', 'quoted', outp, ',', 'quoted', 'utf-8', [], False)
+                    except Exception as e:
+                        err = util.error_class(e)
+                    finally:
+                        sys.stdin = old
+                    res.evaluations += 1
+                    res.count('stdin_bad_byte_runs')
+                    res.distinct_disjoint += 1
+                    if err != 'io':
+                        with open(outp, 'rb') as f:
+                            got = f.read()
+                        res.violation('py:bad-byte-on-stdin-not-io-error', '[py] query_csv(%r) from a sys.stdin with errors=%r, invalid sequence %r at offset %d: error %r, output %r' % (qtext, errors, bad, p, err, got[:80]),
+                                      {'leg': 'stdin-bad-bytes', 'data_hex': data.hex(), 'errors': errors, 'query_text': qtext})
+        # the command line
+        envs = [('LC_ALL=C', {'LC_ALL': 'C', 'PYTHONUTF8': '0'}), ('LC_ALL=C.UTF-8', {'LC_ALL': 'C.UTF-8'}), ('PYTHONUTF8=1', {'PYTHONUTF8': '1'}), ('PYTHONIOENCODING=utf-8:replace', {'PYTHONIOENCODING': 'utf-8:replace'}),
+                ('PYTHONIOENCODING=utf-8:strict', {'PYTHONIOENCODING': 'utf-8:strict'})]
+        step = spec.get('step', 5)
+        for n, (p, bad, data) in enumerate(cases):
+            if n % step != spec.get('i', 0) % step:
+                continue
+            label, extra = envs[n // step % len(envs)]
+            e = dict(os.environ, PYTHONPATH=env.PY_PKG_DIR, PYTHONDONTWRITEBYTECODE='1', HOME=d, PYTHONWARNINGS='ignore')
+            e.pop('PYTHONIOENCODING', None)
+            e.pop('LC_ALL', None)
+            e.update(extra)
+            inp = os.path.join(d, 'bad.csv')
+            with open(inp, 'wb') as f:
+                f.write(data)
+            for via in ('stdin', 'file'):
+                for qtext in ('select *', 'select NR', 'select len(a1)'):
+                    cmd = [sys.executable, '-W', 'ignore', '-m', 'rbql', '--delim', ',', '--policy', 'quoted', '--query', qtext] + (['--input', inp] if via == 'file' else [])
+                    pr = subprocess.run(cmd, env=e, cwd=d, input=data if via == 'stdin' else None, stdout=subprocess.PIPE, stderr=subprocess.PIPE, timeout=120)
+                    res.evaluations += 1
+                    res.count('cli_bad_byte_runs')
+                    res.count('cli_bad_byte_runs:' + via)
+                    res.distinct_disjoint += 1
+                    if pr.returncode == 0 or b'Error [IO handling]' not in pr.stderr or b'Traceback' in pr.stderr:
+                        res.violation('py:cli-bad-byte-not-io-error:' + via, '[cli %s, %s] %r over input with invalid sequence %r at offset %d: exit %d, stderr %r, stdout %r' % (via, label, qtext, bad, p, pr.returncode, pr.stderr[-200:], pr.stdout[:80]),
+                                      {'leg': 'cli-bad-bytes', 'data_hex': data.hex(), 'env': extra, 'via': via, 'query_text': qtext})
+        res.sample({'leg': 'stdin-bad-bytes', 'file': good.decode('utf-8'), 'sequences': [b.hex() for b in bads], 'stdin_error_handlers': ['surrogateescape', 'replace', 'strict', 'ignore'], 'cli_environments': [l for l, _e in envs]})
+    finally:
+        shutil.rmtree(d, ignore_errors=True)
+
+
 class OpenTracker(object):
     """Stand-in for open() inside a front-end module: keeps a strong reference to every file object, so reference counting cannot hide a missing close()."""
 
@@ -603,20 +671,21 @@ def leg_real_pipe(ns, res, spec):
 def plan(tier, seed):
     specs = [{'kind': 'pipe'}, {'kind': 'protocol'}, {'kind': 'bytes'}, {'kind': 'js-bytes'}, {'kind': 'descriptors', 'n': 2 if tier == 'quick' else 20}]
     specs += [{'kind': 'generated', 'i': i, 'n': 120 if tier == 'quick' else 2500} for i in range(6 if tier == 'quick' else 12)]
+    specs += [{'kind': 'stdin-bytes', 'i': i, 'step': 10 if tier == 'quick' else 2} for i in range(2)]
     specs.append({'kind': 'realpipe', 'n': 3 if tier == 'quick' else 5, 'cuts': [0, 10, 70000] if tier == 'quick' else [0, 1, 10, 4096, 65536, 70000, 300000]})
     return specs
 
 
 def run_shard(spec, res):
     ns = env.import_rbql()
-    {'pipe': leg_broken_pipe, 'generated': leg_generated, 'protocol': leg_writer_protocol, 'bytes': leg_bad_bytes, 'js-bytes': leg_js_bad_bytes, 'descriptors': leg_descriptors, 'realpipe': leg_real_pipe}[spec['kind']](ns, res, spec)
+    {'pipe': leg_broken_pipe, 'generated': leg_generated, 'protocol': leg_writer_protocol, 'bytes': leg_bad_bytes, 'stdin-bytes': leg_stdin_bad_bytes, 'js-bytes': leg_js_bad_bytes, 'descriptors': leg_descriptors, 'realpipe': leg_real_pipe}[spec['kind']](ns, res, spec)
 
 
 def summarize(tier, seed, m):
     return {
-        'rule': 'fault enumeration: for each of %d query shapes (streaming, WHERE, header, UPDATE, ORDER BY, TOP, GROUP BY, DISTINCT, DISTINCT COUNT, UNNEST, multi-match JOIN, LEFT JOIN star, None output) the output stream raises BrokenPipeError at every write index k in 1..writes+1 (text sink and raw byte sink behind the writer\'s TextIOWrapper; large outputs sampled), and a user writer returns False at every k; the same two fault enumerations over generated queries of every clause combination (C01-C05 generators, random tables); an invalid UTF-8 sequence at every offset x 7 sequences x 5 chunk sizes (Python reader) and x 6 deliveries x 2 policies through the JS bulk and stream readers, plus truncated sequences as the whole input or right after the last line break; %d descriptor scenarios (success, parse / syntax / runtime / IO error, missing input, missing join table) x header flag with every file object opened by the CSV / sqlite front-ends tracked; the command line writing 30000 rows into a real OS pipe whose reader closes after N bytes (exit status 0, silent stderr, delivered bytes a prefix). distinct_nontrivial counts enumerated fault points.' % (len(SHAPES), len(DESCRIPTOR_SCENARIOS)),
+        'rule': 'fault enumeration: for each of %d query shapes (streaming, WHERE, header, UPDATE, ORDER BY, TOP, GROUP BY, DISTINCT, DISTINCT COUNT, UNNEST, multi-match JOIN, LEFT JOIN star, None output) the output stream raises BrokenPipeError at every write index k in 1..writes+1 (text sink and raw byte sink behind the writer\'s TextIOWrapper; large outputs sampled), and a user writer returns False at every k; the same two fault enumerations over generated queries of every clause combination (C01-C05 generators, random tables); an invalid UTF-8 sequence at every offset x 7 sequences x 5 chunk sizes (Python reader) and x 6 deliveries x 2 policies through the JS bulk and stream readers, plus truncated sequences as the whole input or right after the last line break; the same invalid sequences with the table on standard input - in-process through a replaced sys.stdin whose own error handler is surrogateescape / replace / strict / ignore, and through the command line (stdin and --input) under LC_ALL=C, C.UTF-8, PYTHONUTF8=1, PYTHONIOENCODING=utf-8:replace / :strict, for queries that do and do not print the damaged cell; %d descriptor scenarios (success, parse / syntax / runtime / IO error, missing input, missing join table) x header flag with every file object opened by the CSV / sqlite front-ends tracked; the command line writing 30000 rows into a real OS pipe whose reader closes after N bytes (exit status 0, silent stderr, delivered bytes a prefix). distinct_nontrivial counts enumerated fault points.' % (len(SHAPES), len(DESCRIPTOR_SCENARIOS)),
         'exhaustive': True,
-        'required': ['js_bad_byte_runs:bulk', 'js_bad_byte_runs:stream', 'generated_false_runs', 'generated_pipe_runs', 'generated_faults_triggered', 'broken_pipe_runs', 'broken_pipe:text', 'broken_pipe:bytes', 'faults_triggered', 'writer_protocol_runs', 'bad_byte_runs', 'bad_byte_big_runs', 'records_delivered_before_decode_error', 'descriptor_runs', 'files_tracked', 'descriptor_runs_sqlite', 'real_pipe_runs'],
+        'required': ['js_bad_byte_runs:bulk', 'js_bad_byte_runs:stream', 'generated_false_runs', 'generated_pipe_runs', 'generated_faults_triggered', 'broken_pipe_runs', 'broken_pipe:text', 'broken_pipe:bytes', 'faults_triggered', 'writer_protocol_runs', 'bad_byte_runs', 'bad_byte_big_runs', 'stdin_bad_byte_runs', 'cli_bad_byte_runs:stdin', 'cli_bad_byte_runs:file', 'records_delivered_before_decode_error', 'descriptor_runs', 'files_tracked', 'descriptor_runs_sqlite', 'real_pipe_runs'],
         'assumptions': ['"promptly": no further stream write and at most one further input read after the pipe broke', 'set_header has no return value, so a pipe that breaks while the header line is written can only be noticed at the first data write (one further write attempt tolerated in that phase only); a buffering query (aggregates, ORDER BY, DISTINCT COUNT) issues that write after it has consumed its input, so the read bound is applied to faults at data writes', 'finish being (not) called on failing runs is not demanded'],
     }
 
